@@ -10,6 +10,7 @@ deliberately run with a deviation action enabled).
 """
 import json
 import os
+import random
 import re
 import shutil
 import subprocess
@@ -98,6 +99,53 @@ def parse_output(res, out):
             res.violation = line
 
 
+class _Slots(object):
+    """Machine-wide limit on concurrently running TLC JVMs (many checks / builders may share the box).
+    A run takes 1 slot (workers <= 2) or 4 slots; slots are lock files under .work/slots."""
+    N = int(os.environ.get("VERIF_TLC_SLOTS", "20"))
+
+    def __init__(self, want):
+        self.want = min(want, self.N)
+        self.held = []
+
+    def __enter__(self):
+        import fcntl
+        d = os.path.join(VERIF, ".work", "slots")
+        os.makedirs(d, exist_ok=True)
+        t0 = time.time()
+        while len(self.held) < self.want:
+            got = False
+            for i in range(self.N):
+                if any(i == h[0] for h in self.held):
+                    continue
+                f = open(os.path.join(d, "slot%d" % i), "w")
+                try:
+                    fcntl.flock(f, fcntl.LOCK_EX | fcntl.LOCK_NB)
+                    self.held.append((i, f))
+                    got = True
+                    if len(self.held) >= self.want:
+                        break
+                except OSError:
+                    f.close()
+            if len(self.held) < self.want:
+                if not got:
+                    # do not sit on a partial set while others wait (deadlock avoidance)
+                    if len(self.held) > 0 and time.time() - t0 > 5:
+                        for _, f in self.held:
+                            f.close()
+                        self.held = []
+                    time.sleep(0.2 + 0.3 * random.random())
+        return self
+
+    def __exit__(self, *a):
+        for _, f in self.held:
+            try:
+                f.close()
+            except Exception:
+                pass
+        self.held = []
+
+
 def run(module, cfg, specdir=None, workers=None, simulate=None, depth=None, seed=None,
         env=None, timeout=3600, coverage=False, expect_violation=False, deadlock=None,
         xss="512m", xmx="8g", tag=None, extra=(), dfs=False, keep=False, spool=None):
@@ -136,6 +184,9 @@ def run(module, cfg, specdir=None, workers=None, simulate=None, depth=None, seed
         e.update({k: str(v) for k, v in env.items()})
     res = TLCResult()
     res.cmd = " ".join(cmd)
+    nworkers = int(workers or NCPU)
+    slots = _Slots(1 if nworkers <= 2 else 4)
+    slots.__enter__()
     t0 = time.time()
     try:
         if spool:
@@ -154,8 +205,13 @@ def run(module, cfg, specdir=None, workers=None, simulate=None, depth=None, seed
                                timeout=timeout)
             out = p.stdout.decode("utf-8", "replace")
     except subprocess.TimeoutExpired as ex:
+        slots.__exit__()
         cleanup(meta)
         raise MachineryError("TLC timeout after %ss: %s" % (timeout, res.cmd))
+    except BaseException:
+        slots.__exit__()
+        raise
+    slots.__exit__()
     res.wall = time.time() - t0
     res.rc = p.returncode
     res.out = out
